@@ -149,22 +149,30 @@ theorem exchangeBatch_rel_spec (run : ProbeRunner) {w : World} {fl : List Nat} (
     show r.target.id < w.isTarget.length
     rw [h.link.tgtLen]; exact h.link.lt_of_in (htin r hrm)
   have ma := moveLoopX_post bts i2 mok (by rw [i3.entities]; exact hrows) hreg
-  have hlocks : (bts.foldl (moveStepX rels) w1).locks.unlock b = some l2 := by
+  have hlocks : (registerW (bts.foldl (moveStepX rels) w1) rels).locks.unlock b = some l2 := by
+    show (bts.foldl (moveStepX rels) w1).locks.unlock b = some l2
     rw [ma.locks, i3.untouched.locks]; exact hcyc.unlock
   rw [unlock_ok hlocks] at hbatch
   refine ⟨ts, _, hsame, hbatch, ?_, rfl⟩
   -- the invariant at the end
-  have hflagsF : FlagsOK (bts.foldl (moveStepX rels) w1) := by
-    by_cases hb : bts = []
-    · have hw1 := i8 hb
-      rw [hb, hw1]
-      exact h0.flags
-    · exact ma.flagsOK hb
-  have htinvM : TInv (bts.foldl (moveStepX rels) w1) fl :=
-    { rel := ma.st.rel, flags := hflagsF, freeEmpty := ma.st.freeEmpty, link := ma.st.link
+  -- the registration after the lookup loop flags the targets, moved table or not
+  have hregAll : ∀ (r : RelID), r ∈ rels → r.target.isZero = false →
+      r.target.id < (bts.foldl (moveStepX rels) w1).isTarget.length := by
+    intro r hrm hz
+    rw [ma.isTargetLen, i3.untouched.isTarget]
+    show r.target.id < w.isTarget.length
+    rw [h.link.tgtLen]; exact h.link.lt_of_in (htin r hrm)
+  have htinvM : TInv (registerW (bts.foldl (moveStepX rels) w1) rels) fl :=
+    { rel := ma.st.rel.of_metaStep (registerW_metaStep _ rels) (fun _ hh => hh)
+      flags := ma.st.flags.register hregAll
+      freeEmpty := fun t T hT hf => ma.st.freeEmpty t T hT hf
+      link := ma.st.link.transfer (ma.st.link.idx.congr rfl rfl) rfl (IdxSame.of_eq rfl)
+        (flagFold_length rels _) ma.st.link.fewTables
       kindsLe := by
+        show (bts.foldl (moveStepX rels) w1).kinds.length ≤ (bts.foldl (moveStepX rels) w1).maxComps ∧
+          (bts.foldl (moveStepX rels) w1).maxComps ≤ 256
         rw [ma.ms.kinds, ma.maxComps, i3.kinds, i3.untouched.maxComps]; exact h.kindsLe }
-  have htinv : TInv ({ bts.foldl (moveStepX rels) w1 with locks := l2 } : World) fl :=
+  have htinv : TInv ({ registerW (bts.foldl (moveStepX rels) w1) rels with locks := l2 } : World) fl :=
     htinvM.withLocks l2
   have htm : ∀ (t : Nat), t < w.tables.length → t ≠ maxU32 := by
     intro t ht; have := h.link.fewTables; omega
@@ -178,13 +186,13 @@ theorem exchangeBatch_rel_spec (run : ProbeRunner) {w : World} {fl : List Nat} (
     fun t ht => i3.tbl (S0.lt t ht) (hnf0 t ht)
   -- reading through the final lock update
   have hfinV : ∀ (j : Nat) (c : Comp),
-      valOf ({ bts.foldl (moveStepX rels) w1 with locks := l2 } : World) j c =
+      valOf ({ registerW (bts.foldl (moveStepX rels) w1) rels with locks := l2 } : World) j c =
         valOf (bts.foldl (moveStepX rels) w1) j c := fun j c => valOf_congr rfl rfl j c
   have hfinC : ∀ (j : Nat),
-      compsOf ({ bts.foldl (moveStepX rels) w1 with locks := l2 } : World) j =
+      compsOf ({ registerW (bts.foldl (moveStepX rels) w1) rels with locks := l2 } : World) j =
         compsOf (bts.foldl (moveStepX rels) w1) j := fun j => compsOf_congr rfl rfl j
   have hfinT : ∀ (j : Nat) (c : Comp),
-      targetOf ({ bts.foldl (moveStepX rels) w1 with locks := l2 } : World) j c =
+      targetOf ({ registerW (bts.foldl (moveStepX rels) w1) rels with locks := l2 } : World) j c =
         targetOf (bts.foldl (moveStepX rels) w1) j c := fun j c => rfl
   -- a selected entity: its table, its row, its move
   have hsel : ∀ (e : Ent), e ∈ ts.flatMap (rowsOf w) → ∃ (b0 : BatchTable), b0 ∈ bts ∧
